@@ -68,7 +68,9 @@ func (vc *VC) execCall(fr *frame, n *Node, x *ssa.Call) {
 		if p, ok := c.Value.(*ssa.Parameter); ok {
 			// function-typed parameter: an uninterpreted pure function (listed assumption)
 			vc.enc.notes[fmt.Sprintf("function-typed parameter %s of %s is treated as a pure function of its arguments", p.Name(), fr.fn.Name())] = true
-			var sorts, ts []string
+			fv := vc.value(fr, n, c.Value)
+			sorts := []string{"Int"}
+			ts := []string{fv.T}
 			for _, a := range args {
 				sorts = append(sorts, vc.enc.sortOf(a.Typ))
 				ts = append(ts, a.T)
@@ -76,7 +78,7 @@ func (vc *VC) execCall(fr *frame, n *Node, x *ssa.Call) {
 			var outs []Val
 			for i := 0; i < sig.Results().Len(); i++ {
 				rt := sig.Results().At(i).Type()
-				fn := fmt.Sprintf("fparam.%s.%s.%d", fr.fn.Name(), p.Name(), i)
+				fn := fmt.Sprintf("fapply.%s.%d", typeKey(sig), i)
 				t := vc.enc.uf(fn, sorts, vc.enc.sortOf(rt), ts...)
 				v := vc.def(x.Name(), vc.enc.sortOf(rt), t)
 				vc.assume(vc.enc.wellFormed(v, rt, n.st.wm))
@@ -163,7 +165,7 @@ func (vc *VC) callWithContract(fr *frame, n *Node, x *ssa.Call, callee *ssa.Func
 	}
 	lk := func(name string) (Val, bool) { v, ok := params[name]; return v, ok }
 	pre := n.st.clone()
-	ctx := &SpecCtx{vc: vc, lookup: lk, st: n.st, oldSt: pre, oldLookup: lk, pkg: callee.Pkg.Pkg}
+	ctx := &SpecCtx{vc: vc, lookup: lk, st: n.st, oldSt: pre, oldLookup: lk, pkg: callee.Pkg.Pkg, fnName: callee.Name()}
 	for k, rq := range fc.Requires {
 		t, err := ctx.EvalBool(rq.E)
 		if err != nil {
@@ -196,7 +198,7 @@ func (vc *VC) callWithContract(fr *frame, n *Node, x *ssa.Call, callee *ssa.Func
 		v, ok := params[name]
 		return v, ok
 	}
-	ctx2 := &SpecCtx{vc: vc, lookup: lk2, st: n.st, oldSt: pre, oldLookup: lk, pkg: callee.Pkg.Pkg}
+	ctx2 := &SpecCtx{vc: vc, lookup: lk2, st: n.st, oldSt: pre, oldLookup: lk, pkg: callee.Pkg.Pkg, fnName: callee.Name()}
 	for _, en := range fc.Ensures {
 		t, err := ctx2.EvalBool(en.E)
 		if err != nil {
